@@ -1924,7 +1924,8 @@ class C08(HistProp):
                 "a step that reports an error changing nothing (C08_histories_with_cursor_total); the same from any freshly parsed response "
                 "whose first operation is an insertion or a recompute (C08_histories_from_parse_with_cursor, ..._total); the decompress-and-"
                 "translate prologue of delete / set_raw_name on any parsed packet succeeds, establishes the invariant and keeps the cursor on "
-                "the same record (C08_cursor_decompress); plus frame/shape lemmas "
+                "the same record (C08_cursor_decompress), so the first operation of such a history may also be a deletion or an owner-name "
+                "change through a cursor on the still-compressed packet (C08_histories_from_parse_any_first); plus frame/shape lemmas "
                 "(C08_insert_shape, C08_header_setters_keep_view); with failing steps tolerated every such history runs to the end without a "
                 "Panic outcome (C08_histories_total). Operations that move the cursor (TTL / address / name setters, deletion, "
                 "cursor decompression), insertion of OPT records or of a question, and histories on synthesised objects are decided each run "
